@@ -186,6 +186,25 @@ class _Map(Sink):
             Sink.bad(self, self.mapping[rule], slug, symbol, msg, where, **facts)
 
 
+class _MapFor(_Map):
+    """like _Map, restricted to findings whose symbol names one of the given structs"""
+
+    def __init__(self, report, rid, structs):
+        Sink.__init__(self, report)
+        self.rid, self.structs = rid, tuple(structs)
+
+    def _mine(self, text):
+        return any(text == s_ or text.startswith(s_ + ".") or text.startswith(s_ + ":") or text.startswith(s_ + " ") for s_ in self.structs)
+
+    def ok(self, rule, instance, **facts):
+        if self._mine(str(instance)):
+            Sink.ok(self, self.rid, "reset: " + str(instance), **facts)
+
+    def bad(self, rule, slug, symbol, msg, where=None, **facts):
+        if self._mine(str(symbol)):
+            Sink.bad(self, self.rid, slug, symbol, msg, where, **facts)
+
+
 def hull_rules(F, rep):
     """N9/N10 are corollaries of the window invariants: a mean with positive weights lies in the hull of what it averages, and the
     least element of a window is not above its greatest.  The invariants themselves are C01's rules, run here on the current tree."""
